@@ -36,7 +36,7 @@ class P(vlib.Prop):
         "layer groups are non-empty, pairwise disjoint sets of uniquely named packages (so their tiebreakers differ)",
         "instants are integers; time.Time.After is >",
         "errgroup.Group.SetLimit(n): Go blocks while n goroutines of the group run (the group's semantics are modelled, not its code); GOMAXPROCS >= 1",
-        "no step of a build other than SetRepositories writes etc/apk/repositories (compared on real builds by the canon and baseimage stages)",
+        "C10's nine read-only calls (BuildSteps.pure_calls) do not write etc/apk/repositories; every other step is arbitrary in c01_repositories_file_whatever_the_other_steps_do",
     )
     level_text = ("Theorems c01_canon_* (world, packages, repositories, keyring, environment, architectures, directory listings, installed-db directory keys, "
                   "layer groups: output independent of input order / map iteration order, sorted, same elements), c01_keyring_schedule, c01_install_schedule "
@@ -45,7 +45,7 @@ class P(vlib.Prop):
                   "c01_bde / c01_bde_multiarch (stated about the CODE of the two date loops as goextract reads it - which values are compared, assigned, returned - run by an interpreter: SOURCE_DATE_EPOCH "
                   "or the maximum, for every completion order of the architectures; c01_bde_multiarch_last_finisher_refuted: the same loop comparing with the configured date depends on the order), "
                   "c01_repositories_file_independent_of_tempdir (initializeApk's lists read from the source, C10's generated build steps for every valuation of their conditions: the build-time file names the base image's temp path, "
-                  "the serialised one is the runtime list whatever that path; _without_rewrite_refuted) are proved for all inputs about executable models whose sort/set calls are re-checked in the source on every run "
+                  "the serialised one is the runtime list whatever that path; _without_rewrite_refuted; c01_repositories_file_whatever_the_other_steps_do: the other steps may do ANYTHING to the file or fail - SetRepositories is the last step before the serialiser that may change the filesystem, computed over the generated step lists for every valuation) are proved for all inputs about executable models whose sort/set calls are re-checked in the source on every run "
                   "(Generated/C01Calls.v, c01_source_calls_present). c01_resolve_order holds in full since fix c03e0c0, stated over Model/Resolver.v's install_if loop (versioned entries included; one list for every universe and dependency list, "
                   "no fuel exhaustion, no failure; formerly refuted, finding C01-F1); c01_tarball_order is REFUTED with a witness (finding C01-F2; repair proposed in fixes/C01-F2.patch) and its strongest partial form proved. Wave 3: c01_layer_file_independent_of_earlier_content (the flags of the calls that open the layer file are read from the source: truncating or new at every site), "
                   "c01_output_file_independent_of_earlier_content (BuildIndex's open flags, read from the source, truncate since fix 8ccf1a0 - was finding C01-F3; c01_output_file_before_fix_refuted is the labelled hypothetical for the old flags), c01_index_order_schedule (GetRepositoryIndexes stores by position: repository order for every completion order; _by_arrival_refuted), c01_caches_hand_out_copies (C08's generated facts). pgzip thread-count independence, goroutine scheduling, umask/TMPDIR/TZ/cwd influence and byte-level cache "
